@@ -26,7 +26,7 @@ import (
 func TestMain(m *testing.M) {
 	vt.Property = "C17"
 	probe.Register()
-	vt.Main(m)
+	vt.Main(m, "VERIF_NETNS")
 }
 
 // ---------------------------------------------------------------------------
@@ -39,6 +39,7 @@ type Scope struct {
 
 type BodyReq struct {
 	Path      string `json:"path"`
+	Esc       int    `json:"esc,omitempty"` // percent-encode the Esc-th letter of the path on the wire (0 = none)
 	Len       int    `json:"len"`
 	Chunks    []int  `json:"chunks,omitempty"` // chunked framing with these chunk sizes (cycled); nil = Content-Length
 	ReadSizes []int  `json:"read_sizes"`
@@ -70,6 +71,23 @@ func matchScope(scopes []Scope, reqPath string) (Scope, bool, int) {
 		}
 	}
 	return best, found, n
+}
+
+// wirePath spells p with its n-th letter percent-encoded: the same resource (RFC 3986 2.3).
+func wirePath(p string, n int) string {
+	if n <= 0 {
+		return p
+	}
+	k := 0
+	for i := 0; i < len(p); i++ {
+		if c := p[i]; (c >= 'a' && c <= 'z') || (c >= 'A' && c <= 'Z') {
+			k++
+			if k == n {
+				return fmt.Sprintf("%s%%%02X%s", p[:i], c, p[i+1:])
+			}
+		}
+	}
+	return p
 }
 
 func pathMatches(p, base string) bool {
@@ -112,7 +130,7 @@ func (b *recBackend) ServeHTTP(w http.ResponseWriter, r *http.Request) {
 func rawRequest(req BodyReq, id string, extra [][2]string, host string) []byte {
 	body := makeBody(req.Len)
 	var sb bytes.Buffer
-	fmt.Fprintf(&sb, "POST %s HTTP/1.1\r\nHost: %s\r\nX-Case-Id: %s\r\n", req.Path, host, id)
+	fmt.Fprintf(&sb, "POST %s HTTP/1.1\r\nHost: %s\r\nX-Case-Id: %s\r\n", wirePath(req.Path, req.Esc), host, id)
 	for _, kv := range extra {
 		fmt.Fprintf(&sb, "%s: %s\r\n", kv[0], kv[1])
 	}
@@ -278,6 +296,9 @@ func genBodyCase(t *rapid.T) *BodyCase {
 		lb := fmt.Sprintf("r%d", i)
 		var r BodyReq
 		r.Path = rapid.SampledFrom([]string{"/", "/a", "/a/x", "/a/b", "/a/b/c/d", "/up", "/up/load", "/other", "/A/B", "/a//b", "/x/../a/b", "/upx"}).Draw(t, lb+"p")
+		if rapid.IntRange(0, 3).Draw(t, lb+"escq") == 0 {
+			r.Esc = rapid.IntRange(1, 4).Draw(t, lb+"esc")
+		}
 		sc, ok, _ := matchScope(c.Scopes, r.Path)
 		base := 100
 		if ok {
@@ -536,6 +557,14 @@ func replayCase(rf *vt.ReplayFile) error {
 			return err
 		}
 		_, err := runListener(&c)
+		return err
+	}
+	if rf.Sub == "listener-e2e" {
+		var c E2ECase
+		if err := vt.Decode(rf, &c); err != nil {
+			return err
+		}
+		_, err := runE2E(&c)
 		return err
 	}
 	return fmt.Errorf("HARNESS: unknown sub %q", rf.Sub)
